@@ -870,7 +870,8 @@ struct Value {
             return value_->operator==(val);
         }
 
-        return (type > val.Type());
+        // Values of different types are never equal.
+        return false;
     }
 
     void Merge(Value &&val) {
